@@ -84,12 +84,12 @@ Print Assumptions C34_ready_never_before.
    the wait-sets after the reported cond.Broadcast() calls and the channels closed by the reported close() calls.  Premise: the package's
    error constructor never returns nil (fmt.Errorf is known not to). *)
 From RQ Require Import Lib.GoLib Gen.Cas Gen.Mrsw Gen.ReadyTarget Proofs.C34_Gen.
-Theorem C34_source_derived_eq : forall (E : Type) (now : Z) (errc : option E) (errorf : string -> option E -> string -> Z -> E)
+Theorem C34_source_derived_eq : forall (E : Type) (now : Z) (errorf : string -> E)
     (mkerr : string -> option E) (sprintf : string -> Z -> string),
   (forall m, mkerr m <> None) ->
   (forall s start t o,
-     gen_core (fst (CheckAndSet_Begin E now errc errorf (rep_cas s start) o)) = cas_core (fst (cas_step_obs s (CBegin t o))) /\
-     obs_of_err (snd (CheckAndSet_Begin E now errc errorf (rep_cas s start) o)) = snd (cas_step_obs s (CBegin t o))) /\
+     gen_core (fst (CheckAndSet_Begin E now errorf (rep_cas s start) o)) = cas_core (fst (cas_step_obs s (CBegin t o))) /\
+     obs_of_err (snd (CheckAndSet_Begin E now errorf (rep_cas s start) o)) = snd (cas_step_obs s (CBegin t o))) /\
   (forall s start t,
      gen_core (CheckAndSet_End (rep_cas s start)) = cas_core (fst (cas_step_obs s (CEnd t))) /\
      Ok = snd (cas_step_obs s (CEnd t))) /\
